@@ -25,7 +25,8 @@ var c06Lib = []c06Frag{
 	{"fan2", 1, 2, "r0", "r0:r1", []string{"cpy r1, r0", "inc r1"}},
 	{"swapsum", 2, 2, "r0:r1", "r1:r0", []string{"add r1, r0"}},
 	{"sumb", 2, 1, "r0:r1", "r1", []string{"add r1, r0"}},
-	{"mul2", 2, 1, "r0:r1", "r0", []string{"mult r0, r1"}}, // 8-bit graphs only (last entry)
+	{"dbl3", 1, 1, "r0", "r0", []string{"cpy r3, r0", "add r0, r3"}}, // scratch register with a gap in the numbering
+	{"mul2", 2, 1, "r0:r1", "r0", []string{"mult r0, r1"}},           // 8-bit graphs only (last entry)
 }
 
 type c06Inst struct {
@@ -109,6 +110,7 @@ var c06Shapes = []string{
 	"f0=sumb:x0,x1;f1=dbl:f0.0;f2=addone:f1.0|f2.0",                           // chain through fragments whose result register differs from their input register
 	"f0=fan2:x0;f1=addone:f0.0;f2=subone:f0.1;f3=swapsum:f1.0,f2.0|f3.0,f3.1", // fork and join
 	"f0=sum2:x0,x1;f1=fan2:f0.0;f2=sumb:f1.0,f0.0;f3=dbl:f1.1|f2.0,f3.0",      // one port feeding two instances
+	"f0=addone:x0;f1=addone:x1;f2=dbl3:x2;f3=sum2:f0.0,f1.0|f3.0,f2.0",        // two internal links next to a fragment whose registers leave a gap
 }
 
 func (g c06Graph) spec() string {
@@ -437,7 +439,7 @@ func C06(tier string) int {
 		Configs:  FilterConfigs(cfgs),
 		Assumptions: []string{
 			"metamorphic translation validation: for each fragment graph of a seeded family and each partition of its instances into processors (all collapsed, all separate, every convex two-block partition; collapse lists in topological order) the real basm front-end (fragment analyzer/composer, link resolution, register allocation, Assembler2BondMachine) is RUN NATIVELY - it is not encoded - and the solver decides, per emitted machine, that its simulation (bondmachine.VM.Step with all processors, handshaked i2rw/r2owa links, executed symbolically) delivers on every external output exactly the value of the graph's dataflow expression FOR ALL input values, and delivers every output within the horizon. All partitions are compared with the same expression, hence with each other",
-			"graph family: four fixed shapes (diamond with a tapped source, chain through fragments whose result register differs from their input register, fork and join, one port feeding two instances) and seeded random graphs of 2-5 instances of the fragments addone, subone, sum2, dbl (scratch register), fan2 (two outputs), swapsum (outputs in swapped register order), sumb (result in the second register), mul2 (8-bit graphs only); every input port is fed by a fresh external input or by an output port of an earlier instance - unused, or already feeding another link (fan-out of one port, also across processors) - unused output ports become external outputs and an already consumed port may be one too; register sizes 8 and 16",
+			"graph family: five fixed shapes (diamond with a tapped source, chain through fragments whose result register differs from their input register, fork and join, one port feeding two instances, two internal links next to a fragment with a gap in its register numbering) and seeded random graphs of 2-5 instances of the fragments addone, subone, sum2, dbl (scratch register), fan2 (two outputs), swapsum (outputs in swapped register order), sumb (result in the second register), dbl3 (scratch register r3, leaving r2 unused), mul2 (8-bit graphs only); every input port is fed by a fresh external input or by an output port of an earlier instance - unused, or already feeding another link (fan-out of one port, also across processors) - unused output ports become external outputs and an already consumed port may be one too; register sizes 8 and 16",
 			"environment: external inputs constant and always valid, external outputs acknowledged one tick after they are offered; horizon 30+14*instances ticks from reset. Input streams of several values, stalls, cyclic quotient graphs, fragments with jumps or immediates are outside; sources the front-end rejects are counted, not failed",
 		},
 		Bounds: map[string]interface{}{"graphs": ngraphs, "partitions": nparts, "rejected_by_the_front_end": len(rejections), "rejections": rejections, "instances_max": 5},
